@@ -445,7 +445,10 @@ StmtPositions == <<
     SPos("only statement", "seq"), SPos("first of three", "seq"), SPos("last of three", "seq"), SPos("before the result", "seq"),
     SPos("after a label", "seq"), SPos("in a block", "seq"), SPos("in a block in a block", "seq"), SPos("last in a block before a statement", "seq"),
     SPos("then branch", "then"), SPos("then branch before else", "then"), SPos("else branch", "else"), SPos("then branch of an else-if", "then"),
-    SPos("else branch of an else-if", "else") >>
+    SPos("else branch of an else-if", "else"),
+    \* (eighth round of seeded changes) the ONLY statement of a block that is itself a branch: `else { if c { } }` is not `else if c { }`
+    SPos("alone in a then block", "seq"), SPos("alone in a then block before else", "seq"), SPos("alone in an else block", "seq"),
+    SPos("alone in the else block of an else-if", "seq"), SPos("alone in a block in an else block", "seq") >>
 StRank(c) == CASE c = "seq" -> 0 [] c = "else" -> 1 [] c = "then" -> 2
 StWrap(pos, s) ==
     CASE pos = "only statement" -> FnBody(s, 1)
@@ -461,6 +464,12 @@ StWrap(pos, s) ==
       [] pos = "else branch" -> FnBody(<<NIf("==", TRUE)>> \o X \o X \o StGoto \o s \o StLoop, 2)
       [] pos = "then branch of an else-if" -> FnBody(<<NIf("==", TRUE)>> \o X \o X \o StGoto \o <<NIf("<", TRUE)>> \o X \o One \o s \o StLoop, 1)
       [] pos = "else branch of an else-if" -> FnBody(<<NIf("==", TRUE)>> \o X \o X \o StGoto \o <<NIf("<", TRUE)>> \o X \o One \o StLoop \o s, 1)
+      [] pos = "alone in a then block" -> FnBody(<<NIf("==", FALSE)>> \o X \o X \o <<NBlock(1)>> \o s \o StLoop, 2)
+      [] pos = "alone in a then block before else" -> FnBody(<<NIf("==", TRUE)>> \o X \o X \o <<NBlock(1)>> \o s \o StBlock0, 1)
+      [] pos = "alone in an else block" -> FnBody(<<NIf("==", TRUE)>> \o X \o X \o StGoto \o <<NBlock(1)>> \o s \o StLoop, 2)
+      [] pos = "alone in the else block of an else-if" ->
+             FnBody(<<NIf("==", TRUE)>> \o X \o X \o StGoto \o <<NIf("<", TRUE)>> \o X \o One \o StLoop \o <<NBlock(1)>> \o s, 1)
+      [] pos = "alone in a block in an else block" -> FnBody(<<NIf("==", TRUE)>> \o X \o X \o StGoto \o <<NBlock(1), NBlock(1)>> \o s, 1)
 StmtOK(i, j) == StRank(StmtPositions[i].ctx) <= StRank(Stmts[j].ctx)
 
 (***************************************************************************)
